@@ -737,14 +737,14 @@ impl<'a> Reader<'a> {
                 25 => Ok(Item::Float(f16_to_f64(arg.unwrap() as u16))),
                 26 => {
                     let f = f32::from_bits(arg.unwrap() as u32) as f64;
-                    if self.strict && f16_bits_exact(f).is_some() {
+                    if self.strict && !f.is_nan() && f16_bits_exact(f).is_some() {
                         return Err(ReadError::NotStrict("float not shortest"));
                     }
                     Ok(Item::Float(f))
                 }
                 27 => {
                     let f = f64::from_bits(arg.unwrap());
-                    if self.strict && (f16_bits_exact(f).is_some() || f32_exact(f).is_some()) {
+                    if self.strict && !f.is_nan() && (f16_bits_exact(f).is_some() || f32_exact(f).is_some()) {
                         return Err(ReadError::NotStrict("float not shortest"));
                     }
                     Ok(Item::Float(f))
